@@ -19,6 +19,9 @@ Definition step_known (s : state) (o : op) : bool :=
   | ODisc id oc =>
       (match oc with Some k => k <? len s | None => true end) &&
       existsb (fun c => matches c id oc && (phase c =? 0)) s
+  | ODisc2 id o1 o2 =>
+      (inrange s o1 && inrange s o2) &&
+      existsb (fun c => matches2 c id o1 o2 && (phase c =? 0)) s
   | _ => false
   end.
 
@@ -65,7 +68,7 @@ Qed.
 
 Lemma exec_inv s o : Inv8 s -> step_known s o = false -> Inv8 (fst (exec s o)).
 Proof.
-  intros I Hk. pose proof I as [I1 I2 I3 I4]. destruct o as [id|k|id|id oc|k|k]; cbn [exec].
+  intros I Hk. pose proof I as [I1 I2 I3 I4]. destruct o as [id|k|id|id oc|k|k|id o1 o2]; cbn [exec].
   - apply Inv8_app; [assumption|lia].
   - destruct (existsb _ s); cbn [fst]; [|assumption].
     apply Inv8_map; [assumption| | |].
@@ -95,6 +98,20 @@ Proof.
     + intros c. now destruct (_ && _).
     + intros c Hin. destruct (_ && _); cbn; now apply I3.
     + intros c Hin. destruct (_ && _); cbn; now apply I4.
+  - cbn [step_known] in Hk. destruct (inrange s o1 && inrange s o2); cbn [fst]; [|assumption].
+    cbn [andb] in Hk.
+    apply Inv8_map; [assumption| | |].
+    + intros c. now destruct (matches2 c id o1 o2).
+    + intros c Hin. destruct (matches2 c id o1 o2); cbn; [|now apply I3].
+      destruct (phase c =? 1); [lia|now apply I3].
+    + intros c Hin. destruct (matches2 c id o1 o2) eqn:Em; cbn; [|now apply I4].
+      intros _. destruct (phase c =? 1) eqn:E1; [reflexivity|].
+      assert (H0 : (phase c =? 0) = false).
+      { destruct (phase c =? 0) eqn:E0; [|reflexivity].
+        assert (existsb (fun c => matches2 c id o1 o2 && (phase c =? 0)) s = true).
+        { apply existsb_exists. exists c. split; [assumption|]. now rewrite Em, E0. }
+        congruence. }
+      apply N.eqb_neq in E1, H0. pose proof (I3 c Hin). lia.
 Qed.
 
 Lemma num_unique s c c' : Inv8 s -> In c s -> In c' s -> num c = num c' -> c = c'.
@@ -129,6 +146,9 @@ Proof. reflexivity. Qed.
 Lemma disc_ok_nil s id oc : disc_ok s id oc [] = true.
 Proof. unfold disc_ok. apply forallb_forall. intros c _. now destruct (_ && _). Qed.
 
+Lemma disc_ok2_nil s id o1 o2 : disc_ok2 s id o1 o2 [] = true.
+Proof. unfold disc_ok2. apply forallb_forall. intros c _. now destruct (_ && _). Qed.
+
 Lemma monitor_from_model l : forall s, Inv8 s -> known_from s l = false ->
   monitor_from s l (map (fun p => (snd p, @nil N)) (go s l)) = true.
 Proof.
@@ -142,6 +162,7 @@ Proof.
   - apply disc_ok_nil.
   - assert (ret = snd (exec s (OProbe k))) by now rewrite E. subst ret.
     rewrite exec_ret_probe. now apply probe_ok_model.
+  - apply disc_ok2_nil.
 Qed.
 
 Lemma model_monitor i : known i = 0 -> monitor i (model i) = true.
@@ -209,6 +230,41 @@ Proof.
     apply existsb_exists in Ex as (x & Hx & Exx). apply N.eqb_eq in Exx. subst x.
     exact (H c Hin Em Ep Hx).
 Qed.
+
+(* two requests back to back: every registered connection that EITHER names is stopped —
+   in particular a displaced duplicate named only by the second (by endpoint id) after the
+   first cancelled the active connection — and each reports what it found in the registry *)
+Lemma back_to_back_stops s id o1 o2 c :
+  In c s -> matches2 c id o1 o2 = true -> phase c = 1 ->
+  inrange s o1 = true -> inrange s o2 = true ->
+  In (mkC (num c) (cid c) 2 true false) (fst (exec s (ODisc2 id o1 o2))) /\
+  snd (exec s (ODisc2 id o1 o2)) = 10 + 2 * found s id o1 + found s id o2.
+Proof.
+  intros Hin Hm Hp H1 H2. cbn [exec]. rewrite H1, H2. cbn [andb fst snd]. split; [|reflexivity].
+  apply in_map_iff. exists c. split; [|assumption]. rewrite Hm, Hp. reflexivity.
+Qed.
+
+Lemma disc_ok2_spec s id o1 o2 still :
+  disc_ok2 s id o1 o2 still = true <->
+  forall c, In c s -> matches2 c id o1 o2 = true -> phase c = 1 -> ~ In (num c) still.
+Proof.
+  unfold disc_ok2. rewrite forallb_forall. split.
+  - intros H c Hin Hm Hp Hs. specialize (H c Hin). apply N.eqb_eq in Hp. rewrite Hm, Hp in H.
+    cbn [andb] in H. apply negb_true_iff in H.
+    assert (existsb (N.eqb (num c)) still = true); [|congruence].
+    apply existsb_exists. exists (num c). split; [assumption|apply N.eqb_refl].
+  - intros H c Hin. destruct (matches2 c id o1 o2 && (phase c =? 1)) eqn:E; [|reflexivity].
+    apply andb_prop in E as [Em Ep]. apply N.eqb_eq in Ep. apply negb_true_iff.
+    destruct (existsb _ still) eqn:Ex; [|reflexivity]. exfalso.
+    apply existsb_exists in Ex as (x & Hx & Exx). apply N.eqb_eq in Exx. subst x.
+    exact (H c Hin Em Ep Hx).
+Qed.
+
+Example back_to_back_example :
+  model [OConnect 0; OConnect 0; ODisc2 0 (Some 1) None; OProbe 0] =
+    Ok [(1, []); (1, []); (13, []); (0, [])] /\
+  tag [OConnect 0; OConnect 0; ODisc2 0 (Some 1) None; OProbe 0] = 5.
+Proof. split; reflexivity. Qed.
 End A.
 
 (* ------------------------------------------------------------------------ *)
